@@ -187,10 +187,14 @@ def gen(rng, cfg=None):
         elif k == 'data':
             d = rng.randrange(4)
             if d == 0:
-                items.append({'k': 'seq', 'd': rng.choice(['shorts', 'ints', 'longs', 'longlongs']), 'vals': [rng.randrange(0, 256) for _ in range(rng.randint(1, 4))]})
+                d2 = rng.choice(['shorts', 'ints', 'longs', 'longlongs'])
+                bits = 8 * {'shorts': 2, 'ints': 4, 'longs': 4, 'longlongs': 8}[d2]
+                # documented range of a sequence element: signed or unsigned reading of the width
+                items.append({'k': 'seq', 'd': d2, 'vals': [rng.choice([rng.randrange(0, 256), -rng.randrange(1, 200), -(1 << (bits - 1)), (1 << bits) - 1, rng.randrange(0, 1 << bits)])
+                                                         for _ in range(rng.randint(1, 4))]})
             elif d == 1:
                 nb = rng.randint(1, 5)
-                items.append({'k': 'seq', 'd': 'bytes', 'vals': [rng.randrange(0, 256) for _ in range(nb)]})
+                items.append({'k': 'seq', 'd': 'bytes', 'vals': [rng.randrange(-128, 256) for _ in range(nb)]})
                 if nb % 2:
                     items.append({'k': 'align', 'n': rng.choice([2, 4])})
             elif d == 2:
